@@ -1070,6 +1070,85 @@ def r13(k: Kit) -> None:
               'version 0, RFC 5208) are rejected', pf.loc(pf.node))
 
 
+CERT_OPTION_WIRE = {
+    # option -> (wire constructor the encoder returns, packet getter the
+    # decoder uses); PROTOCOL.certkeys: force-command is a string,
+    # source-address a comma-separated list without blanks (= name-list)
+    'force_cmd': ('String', 'get_string'),
+    'source_addr': ('NameList', 'get_namelist'),
+}
+
+
+def r14(k: Kit) -> None:
+    """Certificate options are written in the form sshd and PyCA parse."""
+    rep = k.rep
+    rep.rule('C15.R14', 'OpenSSH certificate critical options: the encoder '
+             'returns the documented wire form (force-command: String, '
+             'source-address: NameList - addresses joined by "," with '
+             'nothing else in between) and the decoder reads it with the '
+             'matching getter; a symmetric change of both keeps asyncssh '
+             'reading its own certificates while sshd and PyCA reject or '
+             'misread them')
+    n = 0
+    for opt, (ctor, getter) in CERT_OPTION_WIRE.items():
+        enc = k.func(f'public_key.SSHOpenSSHCertificate._encode_{opt}')
+        dec = k.func(f'public_key.SSHOpenSSHCertificate._decode_{opt}')
+        g = k.cfg(enc)
+        rets = [x for x in g.nodes if x.kind == 'return']
+        ok = bool(rets) and all(is_call(r.ast.value, ctor) for r in rets)
+        n += 1
+        rep.check(ok, 'C15.R14', key(enc, f'written as {ctor}'),
+                  f'return {ctor}(...)',
+                  f'the option is not written as {ctor}(...): a user '
+                  'certificate limited to several source addresses goes '
+                  'out as "a/32, b/8" - sshd rejects the entry with the '
+                  'blank, PyCA returns it verbatim - while asyncssh reads '
+                  'its own output back', enc.loc(enc.node))
+        gets = [c for nd, c in k.call_nodes(dec, lambda c: isinstance(
+            c.func, ast.Attribute) and c.func.attr.startswith('get_') and
+            dotted(c.func.value) == 'packet')]
+        rep.check(bool(gets) and all(c.func.attr == getter for c in gets),
+                  'C15.R14', key(dec, f'read with {getter}'),
+                  f'packet.{getter}()',
+                  f'the option is read with '
+                  f'{[c.func.attr for c in gets]}, not {getter}: '
+                  'certificates written by OpenSSH are read differently '
+                  'from how they were written', dec.loc(dec.node))
+    rep.floor('C15.R14', 'option codecs', n, 2)
+
+
+def r15(k: Kit) -> None:
+    """Only the key's own comment is exported."""
+    rep = k.rep
+    rep.rule('C15.R15', 'export_private_key / export_public_key / '
+             'export_certificate write the comment stored with the key '
+             '(self._comment); the display fallback get_comment_bytes() / '
+             'get_comment(), which substitutes the name of the file the key '
+             'was read from, is not used - a key without comment must '
+             're-import without one')
+    n = 0
+    for q in ('public_key.SSHKey.export_private_key',
+              'public_key.SSHKey.export_public_key',
+              'public_key.SSHCertificate.export_certificate',
+              'public_key.SSHCertificate._encode'):
+        if not k.idx.has_func(q):
+            continue
+        fi = k.func(q)
+        n += 1
+        bad = [x for x in ast.walk(fi.node) if (
+            isinstance(x, ast.Attribute) and x.attr in (
+                'get_comment_bytes', 'get_comment', '_filename',
+                'get_filename'))]
+        rep.check(not bad, 'C15.R15', key(fi, 'exports the stored comment'),
+                  'no use of the file name fallback',
+                  f'`{norm(bad[0]) if bad else ""}` in an export path: a '
+                  'comment-less key read from a file is exported as '
+                  '"ssh-ed25519 AAAA... /path/to/file.pem" - the '
+                  're-imported key has a comment the original never had '
+                  'and the local path leaks', fi.loc(bad[0]) if bad else '')
+    rep.floor('C15.R15', 'export functions', n, 2)
+
+
 def run(idx, rep, tier):
     k = Kit(idx, rep)
     rep.assumptions += NOT_DECIDED
@@ -1085,3 +1164,5 @@ def run(idx, rep, tier):
     r11(k)
     r12(k)
     r13(k)
+    r14(k)
+    r15(k)
